@@ -44,6 +44,10 @@ trait Fm: Format + Sized + 'static {
     fn set_byte<A: Atomicity>(_t: &mut Tendril<Self, A>, _k: usize, _v: u8) -> bool {
         false
     }
+    /// `push_uninitialized(n)` followed by writing `v` into the new bytes
+    fn push_uninit_filled<A: Atomicity>(_t: &mut Tendril<Self, A>, _n: u32, _v: u8) -> bool {
+        false
+    }
     /// independent validity check for the `Vec<u8>` oracle
     fn oracle_valid(b: &[u8]) -> bool;
 }
@@ -91,6 +95,14 @@ impl Fm for fmt::Bytes {
     }
     fn set_byte<A: Atomicity>(t: &mut Tendril<Self, A>, k: usize, v: u8) -> bool {
         t[k] = v;
+        true
+    }
+    fn push_uninit_filled<A: Atomicity>(t: &mut Tendril<Self, A>, n: u32, v: u8) -> bool {
+        let old = t.len();
+        unsafe { t.push_uninitialized(n) };
+        for b in &mut t[old..] {
+            *b = v;
+        }
         true
     }
     fn oracle_valid(_: &[u8]) -> bool {
@@ -600,19 +612,47 @@ fn run_ops<F: Fm, A: Atomicity>(ops: &str) -> String {
                 ["reserve", i, n] => {
                     let i = idx(i).filter(|&i| live(&pool, i))?;
                     let n = num(n)?;
-                    expect = Some("ok".into());
+                    // a request that cannot be met panics ("tendril: overflow in buffer arithmetic")
+                    // before anything is touched: the tendril must stay intact and owned once
                     let t = pool[i].as_mut().unwrap();
-                    ledger::record(|| t.reserve(n));
+                    let r = catch_unwind(AssertUnwindSafe(|| ledger::record(|| t.reserve(n))));
+                    expect = Some(if r.is_ok() { "ok".into() } else { "panic".into() });
+                    Some(if r.is_ok() { "ok".into() } else { "panic".into() })
+                },
+                ["pushu", i, n] => {
+                    // push_uninitialized (unsafe, public): bytes format only, the new bytes are then written
+                    let i = idx(i).filter(|&i| live(&pool, i))?;
+                    let n = num(n)?;
+                    if F::NAME != "bytes" || n > 70000 {
+                        return None;
+                    }
+                    let o = orc.pool[i].as_mut().unwrap();
+                    let old = o.len();
+                    o.extend(std::iter::repeat(0x61u8).take(n as usize));
+                    expect = Some("ok".into());
+                    let _ = old;
+                    let t = pool[i].as_mut().unwrap();
+                    if !ledger::record(|| F::push_uninit_filled(t, n, 0x61)) {
+                        return Some("err".into());
+                    }
                     Some("ok".into())
                 },
                 ["withcap", i, n] => {
                     let i = idx(i).filter(|&i| i < SLOTS)?;
                     let n = num(n)?;
-                    expect = Some("ok".into());
-                    orc.pool[i] = Some(vec![]);
-                    let t = ledger::record(|| Tendril::<F, A>::with_capacity(n));
-                    ledger::record(|| pool[i] = Some(t));
-                    Some("ok".into())
+                    // a capacity that cannot be met panics and creates nothing (the slot keeps its tendril)
+                    match catch_unwind(AssertUnwindSafe(|| ledger::record(|| Tendril::<F, A>::with_capacity(n)))) {
+                        Ok(t) => {
+                            expect = Some("ok".into());
+                            orc.pool[i] = Some(vec![]);
+                            ledger::record(|| pool[i] = Some(t));
+                            Some("ok".into())
+                        },
+                        Err(_) => {
+                            expect = Some("panic".into());
+                            Some("panic".into())
+                        },
+                    }
                 },
                 ["setb", i, k, v] => {
                     let i = idx(i).filter(|&i| live(&pool, i))?;
